@@ -7,8 +7,17 @@
  *   safe_strncat_unterm  dest holds no NUL within size bytes: the property still wants a terminator.
  */
 /*@unit
-name: safe_strncat
-define: U_TERM
+name: safe_strncat.term
+define: U_TERM, U_PART_TERM
+src: strings.c
+enforce: spiftool_safe_strncat
+backend: sat
+loops: 1
+funcs: spiftool_safe_strncpy
+*/
+/*@unit
+name: safe_strncat.text
+define: U_TERM, U_PART_TEXT
 src: strings.c
 enforce: spiftool_safe_strncat
 backend: sat
@@ -31,7 +40,7 @@ funcs: spiftool_safe_strncpy
 #include "strings.h"
 #include "src/strings.c"
 
-unsigned long w_size, w_n1, w_n2;
+long w_size; unsigned long w_n1, w_n2;
 
 #ifdef U_TERM
 /* L = vg_n2 = exact length of the text in dest (ghost-instantiated at vg_j2), n = vg_n1 = exact length
@@ -49,13 +58,17 @@ __CPROVER_requires(VCSTR_EXACT_AT(src, vg_n1, vg_j))
 __CPROVER_assigns(__CPROVER_object_whole(dest), vg_exit, vg_len_ret)
 __CPROVER_ensures(!VLEN_GUARD(vg_n2) || VL == vg_n2)
 __CPROVER_ensures(VL <= (size_t) size)
+#ifdef U_PART_TERM
 /* terminated at L + A */
 __CPROVER_ensures(!(VL < (size_t) size) || vg_exit != vg_j || dest[VL + NAPP] == 0)
+/* TRUE iff nothing cut */
+__CPROVER_ensures(!(VL < (size_t) size) || vg_exit != vg_j || (__CPROVER_return_value == TRUE) == (vg_n1 <= ROOM))
+#endif
+#ifdef U_PART_TEXT
 /* old text kept (vg_k2 < L), appended text = prefix of src (vg_k < A) */
 __CPROVER_ensures(!(vg_k2 < VL) || dest[vg_k2] == __CPROVER_old(dest[vg_k2]))
 __CPROVER_ensures(!(VL < (size_t) size) || vg_exit != vg_j || !(vg_k < NAPP) || dest[VL + vg_k] == src[vg_k])
-/* TRUE iff nothing cut */
-__CPROVER_ensures(!(VL < (size_t) size) || vg_exit != vg_j || (__CPROVER_return_value == TRUE) == (vg_n1 <= ROOM))
+#endif
 __CPROVER_ensures(__CPROVER_return_value == TRUE || __CPROVER_return_value == FALSE)
 ;
 void harness(void)
